@@ -1,5 +1,104 @@
-From Coq Require Import List ZArith QArith Qcanon Bool Arith.
+(* C12 — get_jacobian_func returns the derivative of get_run_func.
+   Statements only; every proof is `exact <lemma of JacobianProofs>`.  K is any commutative ring (ring_theory hypothesis);
+   `ev`/`evD` below are evaluation in K and in the dual numbers K[eps]/(eps^2). *)
+From Coq Require Import List ZArith QArith Qcanon Bool Arith Ring.
 From PV Require Import Jacobian JacobianProofs.
 Import ListNotations.
-Theorem C12_placeholder : True. Proof. exact placeholder_true. Qed.
-Print Assumptions C12_placeholder.
+Local Open Scope nat_scope.
+
+(* D is the derivative: evaluating e over dual numbers at the point r with tangent direction x yields (value, value of D e x).
+   For polynomial e (polyb e = true) no function rule enters: this is the formal derivative, with no assumption at all;
+   for sigmoid/absv/exp/sin/cos/tanh the dual extension uses the rule PyRates/sympy apply (dfnI), see JacobianReal.v for K = R. *)
+Theorem C12_D_is_derivative : forall (K : Type) (O : ops K),
+  ring_theory (o0 O) (o1 O) (oadd O) (omul O) (osub O) (oopp O) eq ->
+  forall (r : atom -> K) (x : atom) (e : expr K),
+  eval (dual_ops O) (dinj O) (seed O r x) e = (eval O (fun c => c) r e, eval O (fun c => c) r (D O e x)).
+Proof. exact D_dual. Qed.
+Print Assumptions C12_D_is_derivative.
+
+(* expansion of algebraic intermediates is evaluation of the intermediates one after the other (any carrier) *)
+Theorem C12_expand_is_run : forall (K T : Type) (OT : ops T) (inj : K -> T) l (r : atom -> T) (e : expr K),
+  eval OT inj r (expand l e) = eval OT inj (run_algs OT inj l r) e.
+Proof. exact @expand_eval. Qed.
+Print Assumptions C12_expand_is_run.
+
+(* chain rule: differentiating after substitution = propagating (value, tangent) through the intermediates *)
+Theorem C12_chain_rule : forall (K : Type) (O : ops K),
+  ring_theory (o0 O) (o1 O) (oadd O) (omul O) (osub O) (oopp O) eq ->
+  forall l (r : atom -> K) x (e : expr K),
+  eval O (fun c => c) r (D O (expand l e) x) =
+  snd (eval (dual_ops O) (dinj O) (run_algs (dual_ops O) (dinj O) l (seed O r x)) e).
+Proof. exact D_expand_chain. Qed.
+Print Assumptions C12_chain_rule.
+
+Theorem C12_subst_rule : forall (K : Type) (O : ops K),
+  ring_theory (o0 O) (o1 O) (oadd O) (omul O) (osub O) (oopp O) eq ->
+  forall (r : atom -> K) x (e : expr K) m a,
+  eval O (fun c => c) r (D O (subst e m a) x) =
+  snd (eval (dual_ops O) (dinj O)
+         (upd (seed O r x) (AV m) (eval O (fun c => c) r a, eval O (fun c => c) r (D O a x))) e).
+Proof. exact D_subst_chain. Qed.
+Print Assumptions C12_subst_rule.
+
+(* placement: entry (i, j) of the assembled matrices, for any number of state variables *)
+Theorem C12_placement_J0 : forall (K : Type) (O : ops K) st (fs : list (expr K)),
+  resolved K fs -> length fs = length st ->
+  mat O (length st) (j0_entries O st fs) =
+  map (fun i => map (fun j => D O (nth i fs (Cst (o0 O))) (AV (nth j st 0))) (seq 0 (length st))) (seq 0 (length st)).
+Proof. exact mat_j0. Qed.
+Print Assumptions C12_placement_J0.
+
+Theorem C12_placement_hist : forall (K : Type) (O : ops K) st (fs : list (expr K)) d,
+  resolved K fs -> length fs = length st -> nodupb st = true ->
+  mat O (length st) (hist_entries O true st fs d) =
+  map (fun i => map (fun j => D O (nth i fs (Cst (o0 O))) (AP (nth j st 0) d)) (seq 0 (length st))) (seq 0 (length st)).
+Proof. exact mat_hist. Qed.
+Print Assumptions C12_placement_hist.
+
+(* the property, within the two guards: the matrices get_jacobian_func builds are the partial derivatives of the vector field
+   get_run_func evaluates (J0: with respect to the state; one matrix per distinct delay: with respect to the delayed state) *)
+Theorem C12_partial : forall (K : Type) (O : ops K),
+  ring_theory (o0 O) (o1 O) (oadd O) (omul O) (osub O) (oopp O) eq ->
+  forall (s : sys K) (r : atom -> K),
+  wf s = true -> no_absv s = true -> no_delayed_factor_in_j0 O s = true -> jac_impl O s r = jac_spec O s r.
+Proof. exact jac_refines. Qed.
+Print Assumptions C12_partial.
+
+Theorem C12_partial_Qc : forall (s : sys Qc) (r : atom -> Qc),
+  wf s = true -> no_absv s = true -> no_delayed_factor_in_j0 QcO s = true -> jac_impl QcO s r = jac_spec QcO s r.
+Proof. exact jac_refines_Qc. Qed.
+Print Assumptions C12_partial_Qc.
+
+(* the list of history matrices is complete: for a delay without a matrix all partial derivatives are 0 *)
+Theorem C12_history_list_complete : forall (K : Type) (O : ops K),
+  ring_theory (o0 O) (o1 O) (oadd O) (omul O) (osub O) (oopp O) eq ->
+  forall (s : sys K) (r : atom -> K) d, ~ In d (delays (fexprs s)) ->
+  spec_Jd O s r d = map (fun _ => map (fun _ => o0 O) (seq 0 (length (states s)))) (seq 0 (length (states s))).
+Proof. exact spec_Jd_zero. Qed.
+Print Assumptions C12_history_list_complete.
+
+(* the full statement (no guards) is false of the faithful model, twice *)
+Theorem C12_refuted_delayed_factor : ~ C12_full_statement.
+Proof. exact full_statement_refuted_delayed. Qed.
+Print Assumptions C12_refuted_delayed_factor.
+
+Theorem C12_refuted_absv : ~ C12_full_statement.
+Proof. exact full_statement_refuted_absv. Qed.
+Print Assumptions C12_refuted_absv.
+
+(* the code before fix D08 (history column = position inside the delay group) violated the property inside the guards *)
+Theorem C12_jhist_column_preD08_refuted : exists s r, wf s = true /\ no_absv s = true /\
+  no_delayed_factor_in_j0 QcO s = true /\ jac_impl_preD08 QcO s r <> jac_spec QcO s r.
+Proof. exact preD08_refuted. Qed.
+Print Assumptions C12_jhist_column_preD08_refuted.
+
+(* non-vacuity: a two-node model with three state variables, two intermediates (one of them an edge input with a delayed
+   edge), a parameter delay on the second state variable satisfies all hypotheses; its matrices have non-diagonal entries *)
+Example C12_nonvacuous :
+  wf w_ok = true /\ no_absv w_ok = true /\ no_delayed_factor_in_j0 QcO w_ok = true /\
+  jac_impl QcO w_ok w_ok_env =
+    Ok [[mkq (-3) 16; mkq 13 8; mkq 0 1]; [mkq 1 1; mkq 0 1; mkq 0 1]; [mkq 0 1; mkq 2 1; mkq (-3) 1]]
+       [(4, [[mkq 0 1; mkq 0 1; mkq 0 1]; [mkq 0 1; mkq (-3) 2; mkq 0 1]; [mkq 0 1; mkq 0 1; mkq 0 1]]);
+        (1000, [[mkq 0 1; mkq 0 1; mkq 0 1]; [mkq 0 1; mkq 0 1; mkq 0 1]; [mkq 1 2; mkq 0 1; mkq 0 1]])].
+Proof. exact w_ok_facts. Qed.
+Print Assumptions C12_nonvacuous.
